@@ -30,6 +30,8 @@ type Kind struct {
 	// method objects selected through the pointer method set (may be promoted)
 	Len, Marshal, Unmarshal, Read, Write *types.Func
 	OwnLen, OwnMarshal, OwnUnmarshal     bool
+	// StreamCodec: Marshal/Unmarshal are the io-style Read/Write pair
+	StreamCodec bool
 }
 
 type World struct {
@@ -41,8 +43,10 @@ type World struct {
 	ByName  map[string]*packages.Package
 	Funcs   map[string]*FuncInfo
 	ByObj   map[*types.Func]*FuncInfo
-	Kinds   map[string]*Kind
-	KindsL  []*Kind
+	// implCache: interface method -> its single implementation in the module (uniqueImpl)
+	implCache map[*types.Func]*FuncInfo
+	Kinds     map[string]*Kind
+	KindsL    []*Kind
 
 	ssaw        *ssaWorld // lazily built
 	sc          *summaryCache
@@ -217,6 +221,18 @@ func (w *World) buildKinds() {
 				if f, _ := look("Write"); f != nil && w.isByteIO(f) {
 					k.Write = f
 				}
+			}
+			// … stands in for the MarshalBinary / UnmarshalBinary pair of the kind: the interpreter models the
+			// local bytes.Buffer these codecs build their bytes in (interp_stream.go)
+			if k.Marshal == nil && k.Read != nil && os.Getenv("OFV_NO_STREAM_KINDS") == "" {
+				k.Marshal = k.Read
+				_, k.OwnMarshal = look("Read")
+				k.StreamCodec = true
+			}
+			if k.Unmarshal == nil && k.Write != nil && os.Getenv("OFV_NO_STREAM_KINDS") == "" {
+				k.Unmarshal = k.Write
+				_, k.OwnUnmarshal = look("Write")
+				k.StreamCodec = true
 			}
 			if !w.isLenSig(k.Len) {
 				k.Len = nil
